@@ -41,7 +41,7 @@ def run_one(mid, tier, keep, baseline):
     os.rmdir(d)
     res = {"id": mid, "property": m["prop"], "what": m["what"]}
     try:
-        r = sh(["git", "-C", "/repo", "worktree", "add", "--detach", d, "HEAD"])
+        r = sh(["git", "-C", "/repo", "worktree", "add", "--detach", d, m.get("rev", "HEAD")])
         if r.returncode != 0:
             raise RuntimeError(r.stdout)
         sh(["cp", "/repo/Cargo.lock", d + "/Cargo.lock"])
@@ -50,7 +50,7 @@ def run_one(mid, tier, keep, baseline):
             if r.returncode != 0:
                 raise RuntimeError("patch does not apply: " + r.stdout)
         else:
-            apply_edits(d, m["edits"])
+            apply_edits(d, m.get("edits", []))
         if baseline:
             env = dict(os.environ, CARGO_NET_OFFLINE="true", CARGO_TARGET_DIR=d + "/target")
             r = sh(["cargo", "test", "--workspace", "--no-fail-fast", "--offline"], cwd=d, env=env)
